@@ -89,7 +89,15 @@ func main() {
 	out := flag.String("out", "", "output directory")
 	replay := flag.String("replay", "", "replay file (JSON case) to run instead of generating")
 	noSpecial := flag.Bool("nospecial", false, "skip the Go-side special exploration of the property")
+	goldenWrite := flag.String("golden-write", "", "(re)create the golden corpus of reference-written files in this directory and exit")
 	flag.Parse()
+	if *goldenWrite != "" {
+		if err := hx.WriteGolden(*goldenWrite); err != nil {
+			fmt.Fprintln(os.Stderr, err)
+			os.Exit(1)
+		}
+		return
+	}
 	if *out == "" {
 		fmt.Fprintln(os.Stderr, "need -out")
 		os.Exit(2)
